@@ -476,6 +476,8 @@ func checkC12() fw.Check {
 					cases = append(cases, fw.Case{ID: id, Bubble: true, Run: func(c *fw.Ctx) { runC12E2E(c, id, v, fm) }})
 				}
 			}
+			// the filter each run installs vs the probes that run really sends, when one protocol object is used for several runs
+			cases = append(cases, objectReuseCases("C12")...)
 			return cases
 		},
 	}
